@@ -53,11 +53,23 @@ pub struct Script {
     pub tail_cap: u64,
     /// the tail returns `Pending` (self-waking) once after every this many batches (0 = never)
     pub tail_pending_every: u64,
+    /// what happens after the last item when there is no tail
+    pub end: End,
+}
+
+#[derive(Clone, Copy, Debug, PartialEq, Eq)]
+pub enum End {
+    /// end of stream
+    Finish,
+    /// `Pending` forever without ever waking the task (a source waiting for data that never comes)
+    HangParked,
+    /// `Pending` forever, waking the task every time (a busy-polling source)
+    HangBusy,
 }
 
 impl Script {
     pub fn finite(items: Vec<Item>) -> Self {
-        Script { items, tail: None, tail_cap: 0, tail_pending_every: 0 }
+        Script { items, tail: None, tail_cap: 0, tail_pending_every: 0, end: End::Finish }
     }
 }
 
@@ -204,6 +216,14 @@ impl Stream for ScriptStream {
                 }
             }
             let Some(tail) = this.script.tail.clone() else {
+                match this.script.end {
+                    End::Finish => {}
+                    End::HangParked => return Poll::Pending,
+                    End::HangBusy => {
+                        cx.waker().wake_by_ref();
+                        return Poll::Pending;
+                    }
+                }
                 this.done = true;
                 this.probe.finished.fetch_add(1, Ordering::SeqCst);
                 return Poll::Ready(None);
